@@ -220,6 +220,13 @@ func run(e *hx.Env) *hx.Report {
 			rep.Hit("generated:key-clash-skipped")
 			c, ps = gen(e.Rng, tame)
 		}
+		if i%6 == 4 {
+			// pod / namespace names whose name_namespace strings contain one another
+			wd := &policy.WorldDef{C: *c, PS: ps}
+			policy.SubstringNames(e.Rng, wd)
+			c, ps = &wd.C, wd.PS
+			rep.Hit("generated:substring-related-names")
+		}
 		flows := policy.Flows(c, ps)
 		results = append(results, bt.Add(fmt.Sprintf("s%d-c%d", e.Seed, i), c, ps, flows))
 		if tame {
